@@ -600,6 +600,15 @@ def gen_scale_world(src, cls, tag="w"):
         m.dx = [[0.5, 0.5]]
         m.boxes = [[((2 * i, 2 * j), (2 * i + 1, 2 * j + 1)) for j in range(17) for i in range(18)]]
         m.fields = ["a", "b"][:src.draw(f"{tag}.scale.nf", 1, 2)]
+    elif cls == "box32":
+        # a single 32^3 box (with 3 ghost cells and >= 10 components a checkpoint state FAB exceeds 4 MiB)
+        m.ndims = 3
+        m.nlev = 1
+        m.geo_low, m.geo_high = [0.0, 0.0, 0.0], [1.0, 1.0, 1.0]
+        m.grid_sizes = [(32, 32, 32)]
+        m.dx = [[1.0 / 32] * 3]
+        m.boxes = [[((0, 0, 0), (31, 31, 31))]]
+        m.fields = ["a"]
     elif cls == "megabox":
         # one box of 128 x 128 x 66 = 1 081 344 cells: more than 2**20 values per component and not a
         # multiple of it (chunked readers), 8.6 MB per component
